@@ -997,7 +997,7 @@ class Judge:
             if s.get('mode') is not None and (a[1] ^ s['mode']) & s.get('mode_mask', 0o7777):
                 e = s.get('e') or {}
                 src = 'install_mode' if e.get('perms') is not None else f'install_umask={self.case["umask"]}'
-                return self.fail(f'exact/mode:{s["typ"]}:{kind}:{src.split("=")[0]}',
+                return self.fail(f'exact/mode:{s["typ"]}:{src.split("=")[0]}',
                                  f'{what}: mode of {show(p)} is {oct(a[1])}, expected {oct(s["mode"])} ({src})')
             e = s.get('e')
             if e and (e.get('owner') is not None or e.get('group') is not None) and OWNERS_OK:
@@ -1005,7 +1005,7 @@ class Judge:
                 if ids is not None:
                     for got, want, nm in ((a[2], ids[0], 'owner'), (a[3], ids[1], 'group')):
                         if want is not None and got != want:
-                            return self.fail(f'exact/{nm}:{kind}', f'{what}: {nm} of {show(p)} is {got}, install_mode asks for {e.get(nm)!r} (= {want})')
+                            return self.fail(f'exact/{nm}', f'{what}: {nm} of {show(p)} is {got}, install_mode asks for {e.get(nm)!r} (= {want})')
         return None
 
     def check_outside(self, before: T.Dict[str, tuple], after: T.Dict[str, tuple], what: str) -> T.Optional[Failure]:
@@ -1219,9 +1219,10 @@ def features(case: dict) -> T.Tuple[str, bool, dict]:
     return cls, nontrivial, sample
 
 
-def check_case(case: dict, work: str, ev: T.Optional[Evidence], how: str = 'fork') -> T.Optional[Failure]:
+def check_case(case: dict, work: str, ev: T.Optional[Evidence], how: str = 'fork',
+               confirmed: T.Optional[T.Set[str]] = None) -> T.Optional[Failure]:
     f = run_case(case, work, how, ev)
-    if f is not None and how == 'fork':
+    if f is not None and how == 'fork' and not (confirmed is not None and f.sig in confirmed):
         f2 = run_case(case, work, 'sub', None)      # authoritative: every step in a fresh interpreter
         if f2 is None:
             if ev is not None:
@@ -1241,7 +1242,7 @@ def check_case(case: dict, work: str, ev: T.Optional[Evidence], how: str = 'fork
     return f
 
 
-def minimise(case: dict, sig: str, work: str, budget: int = 40) -> dict:
+def minimise(case: dict, sig: str, work: str, budget: int = 24) -> dict:
     """bounded ddmin over the history and the rules (fork mode; the caller re-confirms in a fresh interpreter)."""
     left = [budget]
 
@@ -1265,15 +1266,19 @@ def minimise(case: dict, sig: str, work: str, budget: int = 40) -> dict:
 
 
 def campaign_cases(strategy: T.Any, n: int, seed: int, work: str, ev: Evidence, fails: T.List[Failure], how: str = 'fork',
-                   max_buckets: int = 6) -> None:
+                   max_buckets: int = 4) -> None:
     import hypothesis
     from hypothesis import given
     buckets: T.Dict[str, Failure] = {}
 
+    confirmed: T.Set[str] = set()      # signatures already re-confirmed in a fresh interpreter: no need to pay for it again
+
     def body(case: dict) -> None:
-        f = check_case(case, work, ev, how)
-        if f is not None and f.sig not in buckets and len(buckets) < max_buckets:
-            buckets[f.sig] = f
+        f = check_case(case, work, ev, how, confirmed)
+        if f is not None:
+            confirmed.add(f.sig)
+            if f.sig not in buckets and len(buckets) < max_buckets:
+                buckets[f.sig] = f
 
     hypothesis.seed(seed)(hyp_settings(n)(given(strategy)(body)))()
     for sig, f in buckets.items():
